@@ -913,6 +913,8 @@ func runHistory(t *rapid.T, thorough bool) {
 		"resetBackAcrossIndexPage": func(t *rapid.T) { w.t = t; w.opResetBackAcrossIndexPage() },
 		"gcInsideTruncation":       func(t *rapid.T) { w.t = t; w.opGCInsideTruncation() },
 		"gcCrash":                  func(t *rapid.T) { w.t = t; w.opGCCrash(thorough) },
+		"ackOverlappedByPuts":      func(t *rapid.T) { w.t = t; w.opAckOverlappedByPuts() },
+		"ackOverlappedByPuts2":     func(t *rapid.T) { w.t = t; w.opAckOverlappedByPuts() },
 		"":                         func(t *rapid.T) { w.t = t; w.check("after step") },
 	})
 	w.t = t
@@ -923,7 +925,8 @@ func runHistory(t *rapid.T, thorough bool) {
 	w.check("after final append")
 	nt := w.nt > 0 || (w.classes["overlapping-put"] > 0 && w.classes["reopen"] > 1) || w.classes["gc-interleaved-with-appends"] > 0 ||
 		w.classes["fault-put-failed"] > 0 || w.heldNonTrivial() || w.classes["reset-during-append"] > 0 ||
-		w.classes["trunc-actor-appended-or-reset"] > 0 || w.classes["gc-img-with-removed-page-files"] > 0
+		w.classes["trunc-actor-appended-or-reset"] > 0 || w.classes["gc-img-with-removed-page-files"] > 0 ||
+		w.classes["ack-seam-reopen"] > 0
 	for c, n := range w.classes {
 		ev.Class("TestQueueHistory", c, n)
 	}
